@@ -283,8 +283,8 @@ def summarize(w: World, env: Env) -> dict:
             'tx': per, 'tx_err': err, 'tx_rest': len(rest), 'rx_left': len(s.rx), 'consumed': s.consumed, 'accepted': s.accepted,
         })
     peers = []
-    for key in sorted(w.reactor._peers):
-        p = w.reactor._peers[key]
+    for key in sorted(w.peers_map()):
+        p = w.peers_map()[key]
         owned = None
         if p.proto and p.proto.connection and p.proto.connection.io is not None:
             owned = p.proto.connection.io.index
